@@ -37,6 +37,7 @@ func (s *Session) allFieldsOf(env *Env, t types.Type, obj Term) []modTarget {
 	switch u := t.Underlying().(type) {
 	case *types.Struct:
 		if isOpaque(t) {
+			s.heapSort("F_"+typeKey(t)+"_$state", ArrSort(SInt, SInt))
 			return []modTarget{{Key: "F_" + typeKey(t) + "_$state", Idx: obj}}
 		}
 		for i := 0; i < u.NumFields(); i++ {
